@@ -747,6 +747,13 @@ type c03Wide struct {
 	E uint32 `parquet:"e,optional"`
 	F []byte `parquet:"f,optional"`
 }
+type c03OptInOpt struct {
+	P *struct {
+		A *int64 `parquet:"a"`
+		B int64  `parquet:"b,optional"`
+	} `parquet:"p"`
+	Q int64 `parquet:"q"`
+}
 type c03OptListOfOpt struct {
 	L []*int64 `parquet:"l,optional,list"`
 }
@@ -767,6 +774,7 @@ var c03Statics = []c03Static{
 	c03Reg[c03OptGroup]("OptGroup"),
 	c03Reg[c03Fixed]("Fixed"),
 	c03Reg[c03Wide]("Wide"),
+	c03Reg[c03OptInOpt]("OptInOpt"),
 	c03Tagged(c03Reg[c03OptListOfOpt]("OptListOfOpt"), "list-of-pointers"),
 }
 
@@ -843,7 +851,7 @@ func c03Main(args []string) error {
 		c03MarkZeroStructs(tree, schema, goType)
 		if sc.Pattern != nil {
 			scale := max(sc.Scale, 1)
-			for _, bit := range sc.Pattern {
+			for pi, bit := range sc.Pattern {
 				for k := 0; k < scale; k++ {
 					row := make([]any, len(tree.Fields))
 					for j, f := range tree.Fields {
@@ -851,7 +859,8 @@ func c03Main(args []string) error {
 						if j%2 == 1 {
 							on = !on
 						}
-						row[j] = c03PatternValue(f, on)
+						_ = on
+						row[j] = c03PatternValueAt(f, sc.Pattern, pi, j%2 == 1)
 					}
 					rows = append(rows, row)
 				}
@@ -970,4 +979,42 @@ func c03PatternValue(t *c03Tree, on bool) any {
 		return c03Default(t, false)
 	}
 	return []any{} // null / empty
+}
+
+// c03PatternValueAt: like c03PatternValue, but optional nodes nested inside an optional
+// node follow the pattern shifted by their depth, so that consecutive rows mix nulls of
+// different definition levels.
+func c03PatternValueAt(t *c03Tree, pattern []int, pos int, invert bool) any {
+	bit := pattern[pos%len(pattern)] == 1
+	if invert {
+		bit = !bit
+	}
+	if t.Rep == "req" {
+		return c03PatternInner(t, pattern, pos, invert)
+	}
+	if t.LT == "ZSTRUCT" {
+		return []any{c03PatternInner(t, pattern, pos, invert)}
+	}
+	if !bit {
+		return []any{}
+	}
+	return []any{c03PatternInner(t, pattern, pos, invert)}
+}
+
+func c03PatternInner(t *c03Tree, pattern []int, pos int, invert bool) any {
+	if t.K == "leaf" {
+		return float64(1)
+	}
+	out := make([]any, len(t.Fields))
+	for i, f := range t.Fields {
+		switch f.Rep {
+		case "opt":
+			out[i] = c03PatternValueAt(f, pattern, pos+1, invert)
+		case "rep":
+			out[i] = []any{c03Default(f, true)}
+		default:
+			out[i] = c03PatternInner(f, pattern, pos+1, invert)
+		}
+	}
+	return out
 }
